@@ -39,4 +39,4 @@ DELIVERABLES in {wt}-out/ :
   - patch.diff : `git diff` of your source change ONLY (without the demonstration file), applying cleanly with `git apply` to the worktree's HEAD
   - the demonstration file (e.g. demo_x_test.go)
   - meta.json : {{"property": "{pid}", "summary": "<what was changed and why it breaks the property, 2-4 sentences>", "files": ["..."], "needs": "<what exactly is needed for the breakage to manifest>", "demo": {{"place_at": "<path of the demo file relative to the repo root>", "run": "cd <repo> && export GOFLAGS=-mod=mod GOPROXY=off GOSUMDB=off && go test -mod=mod -vet=off -count=1 -timeout 300s -run <TestName> ./<pkg>/"}}, "verified": {{"build": true/false, "suite_still_passes": true/false, "demo_fails_with_patch": true/false, "demo_passes_without_patch": true/false}}, "notes": "..."}}
-Verify all four facts yourself before you finish (apply/revert your patch with git stash or git apply -R), leave the worktree with your change applied and the demo file in place, and reply with a short summary (what you changed, what is needed to trigger it, what you verified).""")
+Verify all four facts yourself before you finish (revert and re-apply your patch with `git diff > file`, `git apply -R file`, `git apply file`; do NOT use `git stash`: the stash is shared with other worktrees of this repository), leave the worktree with your change applied and the demo file in place, and reply with a short summary (what you changed, what is needed to trigger it, what you verified).""")
